@@ -1,6 +1,7 @@
 from vf import Query
 
 SRC = ["src/kernel/activity/BarrierImpl.cpp", "src/kernel/activity/ActivityImpl.cpp"]
+THOROUGH_MAX = 40  # all quick shapes + a fixed strided sample of the other thorough shapes (lib/vf.py)
 META = {
     "bounds": "queued waiters 0..4 (quick: 0..2), each blocked in wait_for or only acquire_async-ed (all patterns), arrival with or without wait_for; "
               "barrier size symbolic over the full unsigned range above the number of waiters; unwind 8",
